@@ -44,7 +44,7 @@ ESTABLISHED = (10, 11, 12, 17)
 
 def corpus_cases():
     out = []
-    for path in sorted(glob.glob(os.path.join(C.VERIF, "corpus", "session", "*.json"))):
+    for path in sorted(glob.glob(os.path.join(C.VERIF, "corpus", "session", "c11_*.json"))):
         with open(path) as f:
             for e in json.load(f):
                 a = S.parse_conn_tokens(e["conn"])
